@@ -15,7 +15,7 @@ Open Scope Z_scope.
 Theorem C14_decode_encode_stream : forall msgs frames cs hc bc ru mx,
   max_ok mx ->
   Forall2 (fun m f => encode true m = Ok f) msgs frames ->
-  Forall (fun m => len m <= max_stream_segments + 1) msgs ->
+  Forall (fun m => len m <= max_stream_segments) msgs ->
   Forall (fun f => len f <= eff_max mx) frames ->
   concat cs = concat frames ->
   exists st' outs,
@@ -53,10 +53,10 @@ Theorem C14_alloc_bound : forall cs fin hc bc ru mx st' out log,
   bytes_ok (concat cs) -> 0 <= mx < two64 ->
   decode1 (mkD (mkReader cs fin) hc bc ru mx) = (st', out, log) ->
   0 <= alloc_bytes log <= eff_max mx /\
-  0 <= alloc_table log <= max_stream_segments + 1 /\
+  0 <= alloc_table log <= max_stream_segments /\
   out <> DPanic /\
   (forall segs, out = DMsg segs ->
-     1 <= len segs <= max_stream_segments + 1 /\ segs_ok segs /\
+     1 <= len segs <= max_stream_segments /\ segs_ok segs /\
      stream_header_size (len segs - 1) + sum_len segs <= eff_max mx) /\
   bytes_ok (concat (r_chunks (d_rd st'))) /\ d_max st' = mx.
 Proof. exact alloc_bound. Qed.
@@ -66,8 +66,8 @@ Print Assumptions C14_alloc_bound.
 Theorem C14_alloc_bound_history : forall ops st st' outs,
   (forall m, ~ In (OpSetMax m) ops) -> st_ok st -> run_history st ops = (st', outs) ->
   Forall (fun ol => 0 <= alloc_bytes (snd ol) <= eff_max (d_max st) /\
-                    alloc_table (snd ol) <= max_stream_segments + 1 /\ fst ol <> DPanic /\
-                    forall segs, fst ol = DMsg segs -> len segs <= max_stream_segments + 1) outs.
+                    alloc_table (snd ol) <= max_stream_segments /\ fst ol <> DPanic /\
+                    forall segs, fst ol = DMsg segs -> len segs <= max_stream_segments) outs.
 Proof. exact alloc_bound_history. Qed.
 Print Assumptions C14_alloc_bound_history.
 
